@@ -9,7 +9,7 @@
     the read/write histories, for a peer sending messages from an arbitrary alphabet [A].
     All statements quantify over executions of ANY length. *)
 From Coq Require Import List Bool PArith ZArith.
-From KV Require Import Lts ConnServer ConnServerProofs.
+From KV Require Import Lts ConnServer ConnServerProofs Server ServerProofs.
 Import ListNotations.
 
 (* no send on a closed channel, no close of a closed channel: the connection goroutines never panic *)
@@ -94,6 +94,37 @@ Theorem C08_handler_outcomes : forall items,
   resp_of (MReq items) = RItems (map item_result items).
 Proof. intros items. split; [apply execute_items_total | apply resp_of_request]. Qed.
 Print Assumptions C08_handler_outcomes.
+
+(* any number of concurrent connections: in the server model (Server.v: accept loop, Shutdown, wait
+   group, contexts, a list of connections of any length) every connection is at every moment in a
+   state of the single-connection model, so the theorems above hold for each of them; neither a
+   connection nor the wait group ever panics *)
+Theorem C08_server_conns_are_connections : forall s c,
+  reachable (sstep scfg_repo) sinit s -> In c (conns s) ->
+  exists tls, reachable (cstep cfg_repo) (cinit tls) c.
+Proof. exact server_conns_are_connections. Qed.
+Print Assumptions C08_server_conns_are_connections.
+
+Theorem C08_server_no_panic : forall s,
+  reachable (sstep scfg_repo) sinit s ->
+  s_panic s = false /\ forall c, In c (conns s) -> panicked c = false.
+Proof. exact server_no_panic. Qed.
+Print Assumptions C08_server_no_panic.
+
+(* a step of connection i changes no other connection, nor the accept loop, Shutdown, the timer,
+   the listener or the contexts: one connection cannot make the server stop serving the others *)
+Theorem C08_product_frame : forall s i lb s',
+  In (SL_Conn i lb, s') (sstep_lbl scfg_repo s) ->
+  (forall j, j <> i -> nth_error (conns s') j = nth_error (conns s) j) /\
+  sv s' = sv s /\ sd s' = sd s /\ tm s' = tm s /\ lis s' = lis s /\ shut s' = shut s /\
+  g_rctx s' = g_rctx s /\ g_root s' = g_root s.
+Proof. exact product_frame. Qed.
+Print Assumptions C08_product_frame.
+
+(* the accept loop never waits for a connection: until it returns it always has a step of its own *)
+Theorem C08_serve_live : forall s, serve_ended s = false -> serve_steps scfg_repo s <> [].
+Proof. exact serve_live. Qed.
+Print Assumptions C08_serve_live.
 
 (* the code of the pinned tree (before the fix: commits) had the defects: the same model with the
    three repairs switched off panics (send on closed tx) and leaks writeloop (unbuffered errCh) *)
